@@ -87,6 +87,7 @@ pub struct GenOpts {
 ///  dup        – identical contigs / identical samples (dedup, same-as-reference)
 ///  iupac      – IUPAC codes and N-runs at elevated rates
 ///  short      – contigs shorter than k, 1-base contigs, orphan contigs (raw groups)
+///  trunc      – contigs that are exact prefixes / suffixes / extensions of the reference's contigs
 ///  reorder    – contigs absent / extra / reordered per sample
 ///  manysamples– > 50 samples of small contigs (several metadata batches; > 50 entries per group)
 ///  manyorphans– > 800 tiny novel contigs (raw groups with several packs)
@@ -133,7 +134,7 @@ pub fn generate(o: &GenOpts) -> Vec<Sample> {
                 b.clone()
             } else {
                 let (snp, indel, nrun, iu) = match o.kind.as_str() {
-                    "dup" => (0.0, 0.0, 0.0, 0.0),
+                    "dup" | "trunc" => (0.0, 0.0, 0.0, 0.0),
                     "iupac" => (0.01, 0.002, 0.004, 0.01),
                     "manysamples" => (if i % 3 == 0 { 0.012 } else { 0.05 }, 0.0005, 0.0, 0.0), // most segments differ from the reference: > 50 distinct deltas per group
                     _ => {
@@ -156,6 +157,23 @@ pub fn generate(o: &GenOpts) -> Vec<Sample> {
             let c0 = contigs[0].seq.clone();
             contigs.push(Contig { name: cname(o, &sn, 90, false), seq: c0.clone() });
             contigs.push(Contig { name: cname(o, &sn, 91, false), seq: mutate(&mut r, &c0, 0.01, 0.0, 0.0, 0.0) });
+        }
+        if o.kind == "trunc" && i > 0 {
+            // exact truncations of reference contigs (end earlier / start later / both), and an exact
+            // extension: the terminal segment of such a contig is a proper prefix/suffix of the reference's
+            for (c, b) in base.iter().enumerate() {
+                let n = b.len();
+                let cut = 40 + 37 * i + 11 * c;
+                if n > 3 * cut {
+                    let seq = match (i + c) % 4 {
+                        0 => b[..n - cut].to_vec(),
+                        1 => b[cut..].to_vec(),
+                        2 => b[cut / 2..n - cut].to_vec(),
+                        _ => { let mut e = b.clone(); e.extend(rand_seq(&mut r, cut)); e }
+                    };
+                    contigs[c] = Contig { name: contigs[c].name.clone(), seq: if (i + c) % 5 == 4 { rc(&seq) } else { seq } };
+                }
+            }
         }
         if o.kind == "short" {
             for (j, l) in [1usize, 2, 5, 8, 13, 30].iter().enumerate() {
